@@ -41,6 +41,68 @@ def codec_case(draw, tier: str, n_values: int, vcfg: S.ValCfg = None, dup_ids: b
     return s, name, vals
 
 
+@st.composite
+def variant_of(draw, s: M.Schema) -> M.Schema:
+    """An edited copy of `s`: the same declaration names, other contents (enum maxima, integer widths, field ids and
+    declaration order).  What a long-lived process sees when a schema file is edited and re-loaded, or when two
+    projects use the same names: state kept by the codec across calls (caches keyed by declaration name, by id() of
+    a freed schema object, ...) then meets a schema it does not describe."""
+    import copy
+
+    v = copy.deepcopy(s)
+    for e in v.enums:
+        k = draw(st.integers(0, 3))
+        if k == 0:
+            top = max(val for _n, val in e.items)
+            sh = draw(st.integers(1, 12))
+            while sh and (top << sh) >= 2 ** 63:
+                sh -= 1
+            e.items = [(n, val << sh) for n, val in e.items]
+        elif k == 1:
+            top = max(val for _n, val in e.items)
+            e.items = [(n, val) for n, val in e.items if val != top] or [(e.items[0][0], top >> 1)]
+        elif k == 2:
+            top = max(val for _n, val in e.items)
+            e.items = e.items + [(e.items[0][0] + "Xq", min(2 ** 63 - 1, top * 5 + 3))]
+    for st_ in v.structs:
+        for f in st_.fields:
+            if isinstance(f.type, (M.U, M.I)) and draw(st.integers(0, 2)) == 0:
+                f.type = type(f.type)(draw(st.integers(1, 64)))
+        if len(st_.fields) >= 2 and draw(st.integers(0, 2)) == 0:
+            ids = draw(st.permutations([f.fid for f in st_.fields]))
+            for f, i in zip(st_.fields, ids):
+                f.fid = i
+        if len(st_.fields) >= 2 and draw(st.booleans()):
+            st_.fields = list(reversed(st_.fields))
+    return v
+
+
+@st.composite
+def codec_history(draw, tier: str, n_values: int, vcfg: S.ValCfg = None, dup_ids: bool = True):
+    """-> list of steps (schema, struct, values) executed one after the other in the same interpreter: the generated
+    case, then (one case in four) 1-3 same-named variants of it and the original once more."""
+    s, name, vals = draw(codec_case(tier, n_values, vcfg, dup_ids))
+    steps = [(s, name, vals)]
+    if draw(st.integers(0, 3)) == 0:
+        vc = vcfg if vcfg is not None else S.ValCfg(int_floats=True)
+        for _ in range(draw(st.integers(1, 3))):
+            v = draw(variant_of(s))
+            steps.append((v, name, draw(st.lists(S.struct_value(v, name, vc), min_size=1, max_size=3))))
+        steps.append((s, name, vals[:2]))
+    return steps
+
+
+@st.composite
+def codec_alternation(draw, tier: str):
+    """-> (steps, cycles): two same-named revisions of a schema that one interpreter loads, uses and drops alternately
+    `cycles` times.  State keyed by the identity (id()) of a schema object that has been freed needs the allocator to
+    hand the address out again, which a few dozen load/drop cycles make practically certain."""
+    s, name, vals = draw(codec_case(tier, 2, S.ValCfg(int_floats=True, pad_blocks=False, allow_long=False, magic_lengths=False)))
+    v = draw(variant_of(s))
+    vvals = draw(st.lists(S.struct_value(v, name, S.ValCfg(int_floats=True, pad_blocks=False, allow_long=False, magic_lengths=False)), min_size=1, max_size=2))
+    return [(s, name, vals[:2]), (v, name, vvals)], draw(st.sampled_from([24, 40]))
+
+
 def pad_to_block(s: M.Schema, name: str, v: Dict[str, Any], block: int, delta: Any):
     """Stretch one top-level string / byte-array field so that the whole encoding is exactly `block` bytes
     (+ delta): block-size boundaries of buffers are reached whatever else the struct contains."""
